@@ -232,14 +232,25 @@ Proof.
 Qed.
 
 (* decoding the encoded entry area returns the entries *)
-Lemma entries_loop_enc : forall es interval counter last fuel,
-  Forall wf_entry es ->
+Definition keys_ge8 (isint : bool) (es : list entry) : Prop :=
+  isint = true -> Forall (fun e => 8 <= nlen (fst e)) es.
+
+Lemma keys_ge8_tail : forall isint e es, keys_ge8 isint (e :: es) -> keys_ge8 isint es.
+Proof. intros isint e es H Hi. specialize (H Hi). inversion H; assumption. Qed.
+
+Lemma entries_loop_enc : forall isint es interval counter last fuel,
+  Forall wf_entry es -> keys_ge8 isint es ->
   (length es <= fuel)%nat ->
-  entries_loop fuel false last (enc_entries interval counter last es) = Some es.
+  entries_loop fuel isint last (enc_entries interval counter last es) = Some es.
 Proof.
-  induction es as [|[k v] es IH]; intros interval counter last fuel Hwf Hfuel.
+  intros isint.
+  induction es as [|[k v] es IH]; intros interval counter last fuel Hwf H8 Hfuel.
   - rewrite entries_loop_unfold. reflexivity.
   - inversion Hwf as [|? ? [Hk Hv] Hwf']; subst. cbn [fst snd] in Hk, Hv.
+    assert (Hk8 : isint && (nlen k <? 8) = false).
+    { destruct isint; [|reflexivity]. specialize (H8 eq_refl). inversion H8; subst.
+      cbn [fst] in *. cbn [andb]. lia. }
+    apply keys_ge8_tail in H8.
     cbn [enc_entries]. cbn [length] in Hfuel.
     destruct fuel as [|fuel]; [lia|].
     set (restart := negb (counter <? interval)).
@@ -261,7 +272,8 @@ Proof.
     rewrite decode_header_encode; try lia.
     2:{ rewrite !nlen_app, nlen_drop_n. lia. }
     replace (nlen last <? shared) with false by lia.
-    cbn [andb].
+    replace (shared + (nlen k - shared)) with (nlen k) by lia.
+    rewrite Hk8.
     cbv zeta.
     rewrite (take_n_app_exact (drop_n shared k)) by (rewrite nlen_drop_n; lia).
     rewrite (drop_n_app_exact (drop_n shared k)) by (rewrite nlen_drop_n; lia).
@@ -330,13 +342,13 @@ Proof.
 Qed.
 
 (* a block of the shape produced by bb_finish decodes to the entries of its area *)
-Lemma block_entries_layout : forall area rs n es,
+Lemma block_entries_layout : forall isint area rs n es,
   n = nlen rs -> 1 <= n -> n < 4294967296 ->
-  entries_loop (S (length area)) false [] area = Some es ->
-  block_entries (area ++ flat_map le32 rs ++ le32 n) = Some es.
+  entries_loop (S (length area)) isint [] area = Some es ->
+  block_entries_gen isint (area ++ flat_map le32 rs ++ le32 n) = Some es.
 Proof.
-  intros area rs n es Hn H1 Hlt Hdec.
-  unfold block_entries, block_entries_gen.
+  intros isint area rs n es Hn H1 Hlt Hdec.
+  unfold block_entries_gen.
   set (b := area ++ flat_map le32 rs ++ le32 n).
   assert (Hsize : nlen b = nlen area + 4 * n + 4).
   { subst b. rewrite !nlen_app, flat_map_le32_length. unfold nlen at 3. rewrite le32_length. lia. }
@@ -365,11 +377,11 @@ Proof.
 Qed.
 
 (* (b) decoding a built block returns exactly the entries *)
-Theorem block_entries_build : forall interval es,
-  1 <= interval -> wf_entries es ->
-  block_entries (block_build interval es) = Some es.
+Theorem block_entries_gen_build : forall isint interval es,
+  wf_entries es -> keys_ge8 isint es ->
+  block_entries_gen isint (block_build interval es) = Some es.
 Proof.
-  intros interval es Hint [Hwf Hcount].
+  intros isint interval es [Hwf Hcount] H8.
   unfold block_build, bb_finish.
   assert (Hinv0 : bb_inv bb_empty) by (unfold bb_inv; cbn; lia).
   destruct (bb_add_all_inv es interval bb_empty Hinv0) as [[Hn H1] Hle].
@@ -379,8 +391,16 @@ Proof.
   - rewrite Hn. unfold nlen. rewrite rev_length. reflexivity.
   - exact H1.
   - lia.
-  - apply entries_loop_enc; [exact Hwf|].
+  - apply entries_loop_enc; [exact Hwf|exact H8|].
     pose proof (enc_entries_length es interval 0 []). lia.
+Qed.
+
+Theorem block_entries_build : forall interval es,
+  1 <= interval -> wf_entries es ->
+  block_entries (block_build interval es) = Some es.
+Proof.
+  intros interval es _ Hwf. apply block_entries_gen_build; [exact Hwf|].
+  intro H; discriminate.
 Qed.
 
 (* ================================================================== *)
